@@ -68,7 +68,10 @@ def cases(tier, seed):
         # sqrt on Study numbers
         for k in (rng.sample(nosc, min(len(nosc), 4)) if nosc else []):
             out.append(dict(kind='sqrt', cfg=cfg, ka=[0, k]))
+            out.append(dict(kind='sqrt', cfg=cfg, ka=[k, 0]))          # the scalar part need not be stored first
         if d == 3:
+            bv = [k for k in order if popcount(k) == 2]
+            out.append(dict(kind='sqrt', cfg=cfg, ka=[bv[1], 0, bv[0], bv[2]]))
             out.append(dict(kind='sqrt', cfg=cfg, ka=[0] + [k for k in order if popcount(k) == 2]))
         out.append(dict(kind='sqrt', cfg=cfg, ka=[0]))
         # powers and norms
